@@ -1,14 +1,20 @@
-(* C01 - Pub/sub routing is exact.  Property theorems only (proofs: Proofs/Routing.v, Proofs/StepInv.v).
-   Stage proved here: at every reachable state the recipient snapshot of forward_message is
-   duplicate-free (exactly once), consists of registered open modules that asked for the type or for all
-   types, the destination guards are the protocol's ranges, the destination filter is the stated one,
-   an invalid destination delivers to nobody, and forward_message itself never changes anybody's
-   subscriptions except by removing dead connections (Frame).  The byte-level statement "the frames
-   written for a publish are exactly these recipients, unmodified" is decided against the implementation by
-   the model correspondence and the spec oracle of vlib/mgr_oracles.py (check_C01). *)
+(* C01 - Pub/sub routing is exact.  Property theorems only (proofs: Proofs/Routing.v, Proofs/StepInv.v,
+   Proofs/Exact.v, Proofs/ExactTop.v).
+   - C01_forward_exact (end to end, every reachable state): when the environment lets every member of the
+     recipient snapshot be written to (writable, no failing send), forward_message of a message with a valid
+     destination writes to each connection c exactly: one whole frame - the published header with only
+     msg_count stamped, and the payload unchanged - if c is in the snapshot and passes the destination
+     filter; NOTHING otherwise.  The snapshot is duplicate-free and consists of registered open modules
+     subscribed to the type or to all types (C01_exactly_once, C01_recipients_subscribed), the filter is the
+     stated one (C01_dest_filter), the destination guards are the protocol's ranges (C01_valid_dest), an
+     invalid destination delivers to nobody (C01_invalid_dest_nobody).
+   - What happens to a recipient that is NOT writable or whose send fails is C14's subject
+     (C01_deliver_decision is the three-way decision shared with it).
+   The same statements are decided against the implementation by the model correspondence and the spec
+   oracle of vlib/mgr_oracles.py (check_C01). *)
 From Coq Require Import ZArith List Bool Lia.
 From Mgr Require Import Gen.MgrDefs Model.Manager Proofs.RegInv Proofs.Frame Proofs.RegTraverse Proofs.RegTop
-                        Proofs.Connect Proofs.StepInv Proofs.Routing.
+                        Proofs.Connect Proofs.StepInv Proofs.Routing Proofs.OutInv Proofs.C05Inv Proofs.Exact Proofs.ExactTop.
 Import ListNotations.
 Open Scope Z_scope.
 
@@ -80,4 +86,36 @@ Example C01_ex :
   | Ok _ s => map fst (filter (fun ci => match snd ci with OPay (PData 77 _) => true | _ => false end) (out s))
   | Crash _ _ => []
   end = [3; 2].
+Proof. vm_compute. reflexivity. Qed.
+
+(* ---- end to end ---- *)
+Theorem C01_forward_exact : forall cfg fuel es u s (k : nat) h p,
+  run cfg fuel es = Ok u s ->
+  h_type h <> ALL_MESSAGE_TYPES ->
+  bad_dest_mod (h_dst_mod h) = false -> bad_dest_host (h_dst_host h) = false ->
+  (forall c, In c (snapshot s (h_type h)) -> zmem c (wl s) = true /\ flookup c (faults s) = None) ->
+  exists s', forward cfg (Datatypes.S k) h p s = Ok tt s' /\
+    out s' = out s ++ frames h p s (snapshot s (h_type h)) /\
+    forall c, proj c (out s') = proj c (out s) ++
+      (if in_dec Z.eq_dec c (snapshot s (h_type h))
+       then if dest_filter (h_dst_mod h) (m_mod_id (find_mod c (mods s))) (m_logger (find_mod c (mods s)))
+            then [OHdr (set_count h (m_count (find_mod c (mods s)) + 1)); OPay p] else []
+       else []).
+Proof. exact forward_exact_reachable. Qed.
+
+(* the hypotheses are met by a non-trivial reachable state: three subscribers (one addressed, one logger,
+   one neither), all writable *)
+Example C01_forward_exact_ex :
+  match run (mkConfig 60 true) 60%nat
+    [ERound true [] [] 0; ERound true [] [] 0; ERound true [] [] 0;
+     ERound false [(1, IFrame (Hx MT_CONNECT 10 0 4 1) (InConnect 0 0)); (2, IFrame (Hx MT_CONNECT 11 0 4 2) (InConnect 1 0));
+                   (3, IFrame (Hx MT_CONNECT 12 0 4 3) (InConnect 0 0))] [1;2;3] 0;
+     ERound false [(1, IFrame (Hx MT_SUBSCRIBE 10 0 4 5) (InSub 100)); (2, IFrame (Hx MT_SUBSCRIBE 11 0 4 6) (InSub 100));
+                   (3, IFrame (Hx MT_SUBSCRIBE 12 0 4 7) (InSub 100))] [1;2;3] 0] with
+  | Ok _ s => let h := Hx 100 12 10 3 9 in
+              (snapshot s 100,
+               forallb (fun c => zmem c (wl s) && match flookup c (faults s) with None => true | _ => false end) (snapshot s 100),
+               map (fun c => dest_filter (h_dst_mod h) (m_mod_id (find_mod c (mods s))) (m_logger (find_mod c (mods s)))) (snapshot s 100))
+  | Crash _ _ => ([], false, [])
+  end = ([1; 2; 3], true, [true; true; false]).
 Proof. vm_compute. reflexivity. Qed.
